@@ -21,7 +21,8 @@ def constructor_free(ck):
         while root.kind == "Closure":
             root = prog.bodies.get(root.d.get("root"))
         want = allowed.get(root.path)
-        ok = want is not None and t.get("name") == want[0]
+        # `add_virtual_target_arr::<N>()` is N × `add_virtual_target()`
+        ok = want is not None and (t.get("name") == want[0] or (want[0] == "add_virtual_target" and t.get("name") == "add_virtual_target_arr"))
         ck.require(ok, "FREE", "agg/free/%s@%s" % (t.get("name"), root.path.split("::", 1)[-1]),
                    "virtual target creator in the aggregator crate is one of the three declared-input sites", b.loc(bb))
         seen.add(root.path)
@@ -50,6 +51,8 @@ def constructor_free(ck):
                     four = pv[0]
                     if isinstance(four, tuple) and four and four[0] == "from_fn":
                         four = ("array", tuple(P.norm(fr.index(four, ("c", k, None))) for k in range(4)))
+                    if P.call_name(four) == "cb.add_virtual_target_arr" and four[3] and four[3][-1] == 4:
+                        four = ("array", tuple(("call", four[1] + "#%d" % k, "cb.add_virtual_target", (), four[4]) for k in range(4)))
                     per = lambda x: P.call_name(x) == "cb.add_virtual_target" or (isinstance(x, tuple) and x and x[0] == "idx" and isinstance(x[1], tuple) and x[1] and x[1][0] == "from_fn"
                                                                                     and P.call_name(fr.closure_ret(x[1][1], [x[2]])) == "cb.add_virtual_target")
                     ok = isinstance(four, tuple) and four[0] == "array" and len(four[1]) == 4 and all(per(x) for x in four[1])
